@@ -275,7 +275,12 @@ func (i *IPC) ProxyAnswers(arg messages.Arg, response *[]byte) error {
 	*response = b
 
 	if success {
-		snowflake.answerChannel <- answer
+		select {
+		case snowflake.answerChannel <- answer:
+		default:
+			// An answer for this snowflake was already delivered and the
+			// client is no longer there to take another one.
+		}
 	}
 
 	return nil
